@@ -429,6 +429,9 @@ func pointPaths(context *api.Context, id b6.Identifiable) (b6.Collection[b6.Feat
 func samplePointsAlongPaths(context *api.Context, paths b6.Collection[b6.FeatureID, b6.Geometry], distanceMeters float64) (b6.Collection[int, b6.Geometry], error) {
 	// TODO: We shouldn't need to special case this: we should be able to flatten the results of sample_points
 	// on a collection of paths.
+	if !(distanceMeters > 0.0) {
+		return b6.Collection[int, b6.Geometry]{}, fmt.Errorf("sample-points-along-paths: distance must be greater than 0, found %f", distanceMeters)
+	}
 	seen := make(map[s2.Point]struct{})
 	points := make([]b6.Geometry, 0, 16)
 	i := paths.Begin()
@@ -440,7 +443,9 @@ func samplePointsAlongPaths(context *api.Context, paths b6.Collection[b6.Feature
 		if !ok {
 			break
 		}
-		points = appendUnseenSampledPoints(i.Value(), distanceMeters, seen, points)
+		if i.Value() != nil {
+			points = appendUnseenSampledPoints(i.Value(), distanceMeters, seen, points)
+		}
 	}
 	return b6.ArrayValuesCollection[b6.Geometry](points).Collection(), nil
 }
@@ -448,6 +453,12 @@ func samplePointsAlongPaths(context *api.Context, paths b6.Collection[b6.Feature
 // Return a collection of points along the given path, with the given distance in meters between them.
 // Keys are ordered integers from 0, values are points.
 func samplePoints(context *api.Context, path b6.Geometry, distanceMeters float64) (b6.Collection[int, b6.Geometry], error) {
+	if err := requireGeometry("sample-points", path); err != nil {
+		return b6.Collection[int, b6.Geometry]{}, err
+	}
+	if !(distanceMeters > 0.0) {
+		return b6.Collection[int, b6.Geometry]{}, fmt.Errorf("sample-points: distance must be greater than 0, found %f", distanceMeters)
+	}
 	points := appendUnseenSampledPoints(path, distanceMeters, make(map[s2.Point]struct{}), make([]b6.Geometry, 0, 16))
 	return b6.ArrayValuesCollection[b6.Geometry](points).Collection(), nil
 }
